@@ -208,7 +208,60 @@ def main(argv=None):
                 c = eng.contracts.get(callee)
                 if c is not None and not c.trusted and callee not in done and callee not in running:
                     queue.append(callee)
-    return report.finish(eng, prop, a, seed, results, time.time() - t0)
+    enum_results = run_enumerators(eng, prop, a, seed, results, ctx)
+    return report.finish(eng, prop, a, seed, results, time.time() - t0, enum_results)
+
+
+def _enum_child(idx, src, seed, focus, conn):
+    try:
+        eng = get_engine(src)
+        conn.send(eng.enumerators[idx]["run"](seed, focus))
+    except BaseException as e:
+        conn.send({"error": f"{type(e).__name__}: {e}", "trace": traceback.format_exc()[-2000:]})
+    finally:
+        conn.close()
+
+
+def run_enumerators(eng, prop, a, seed, results, ctx):
+    """bounded stand-ins: run when some obligation of a function in their scope failed or is undecided
+    (quick tier), or always (thorough tier: CPython cross-check of contracts and engine)."""
+    bad_fns = set()
+    for r in results:
+        if r.get("unsupported") or r.get("error"):
+            bad_fns.add(r["key"])
+        for ob in r.get("obligations", []):
+            if ob["expect"] == "unsat" and ob["status"] != "unsat" and not (ob.get("replay") or {}).get("failed_on_real_code"):
+                bad_fns.add(ob["fn"])
+    chosen = []
+    for i, en in enumerate(eng.enumerators):
+        if prop not in en["props"]:
+            continue
+        hit = sorted(bad_fns & set(en["scope"]))
+        if a.tier == "thorough" or hit:
+            chosen.append((i, en, hit))
+    procs = []
+    for i, en, hit in chosen:
+        pc, cc = ctx.Pipe(duplex=False)
+        pr = ctx.Process(target=_enum_child, args=(i, a.src, seed, hit, cc), daemon=True)
+        pr.start()
+        cc.close()
+        procs.append((en, hit, pr, pc, time.time()))
+    out = []
+    limit = 300 if a.tier == "quick" else 1800
+    for en, hit, pr, pc, t1 in procs:
+        res = None
+        if pc.poll(max(1, limit - (time.time() - t1))):
+            try:
+                res = pc.recv()
+            except EOFError:
+                res = {"error": "enumerator died"}
+        else:
+            pr.kill()
+            res = {"error": f"enumerator exceeded {limit}s"}
+        pr.join(timeout=5)
+        out.append({"name": en["name"], "scope": en["scope"], "triggered_by": hit, "result": res,
+                    "wall": round(time.time() - t1, 2)})
+    return out
 
 
 if __name__ == "__main__":
